@@ -1,8 +1,6 @@
 //! Scheduling-point wrappers with the std API.
-pub use std::sync::{Arc, Barrier, Condvar, LockResult, Once, OnceLock, PoisonError, RwLock, TryLockError, TryLockResult, Weak};
-pub mod mpsc {
-    pub use std::sync::mpsc::*;
-}
+// everything of std::sync that is not overridden below (explicit items shadow the glob)
+pub use std::sync::*;
 
 use crate::sched;
 use std::mem::ManuallyDrop;
@@ -117,7 +115,8 @@ impl<T: Default> Default for Mutex<T> {
 }
 
 pub mod atomic {
-    pub use std::sync::atomic::{fence, AtomicBool, AtomicPtr, Ordering};
+    // everything of std::sync::atomic that is not overridden below
+    pub use std::sync::atomic::*;
     use crate::sched;
 
     macro_rules! wrap_atomic {
